@@ -438,6 +438,37 @@ def check_matrix_kernel(ck: Check, n, m, modulo, M, S):
         ck.correspondence_break("Matrix.apply (model) differs from exact integer arithmetic", {"case": case})
 
 
+def check_mixed_moduli(ck: Check):
+    """A matrix-group definition whose generators carry different moduli (nothing forbids it): applying generator i
+    reduces by generator i's modulus.  States are reduced modulo every positive modulus involved."""
+    from cayleypy import CayleyGraph, CayleyGraphDef
+
+    rng = ck.rng
+    n, m = rng.choice([2, 2, 3]), rng.choice([1, 2])
+    mods = [rng.choice([0, 2, 3, 5, 7, 10, 2**31 - 1]) for _ in range(rng.randint(2, 3))]
+    lo = min([x for x in mods if x > 0] or [50])
+    mats = [[rng.randrange(-3, 4) if md == 0 else rng.randrange(md) for _ in range(n * n)] for md in mods]
+    rows = [[rng.randrange(lo) for _ in range(n * m)] for _ in range(3)]
+    case = {"kind": "mixed-moduli", "n": n, "m": m, "mods": mods, "mats": mats, "rows": rows}
+    gens = [MatrixGenerator.create(np.array(M, dtype=np.int64).reshape(n, n), md) for M, md in zip(mats, mods)]
+    ck.case(["mixed-moduli", n, m, mods, mats, rows], len(set(mods)) > 1, sample={"op": "mixed moduli", "mods": mods})
+    ck.count("matrix: generators with " + ("different" if len(set(mods)) > 1 else "equal") + " moduli")
+    try:
+        g = CayleyGraph(CayleyGraphDef.for_matrix_group(generators=gens, central_state=rows[0]), device="cpu")
+        nb = np.asarray(g.get_neighbors_decoded(torch.tensor(rows, dtype=torch.int64))).reshape(-1, n * m).tolist()
+    except (AssertionError, ValueError, RuntimeError) as ex:
+        ck.count("matrix: mixed moduli rejected by the library (" + type(ex).__name__ + ")")
+        return
+    want = []
+    for M, md in zip(mats, mods):
+        Mr = [v % md for v in M] if md > 0 else M
+        for S in rows:
+            out = [sum(Mr[r * n + j] * S[j * m + c] for j in range(n)) for r in range(n) for c in range(m)]
+            want.append([v % md if md > 0 else S64(v) for v in out])
+    if nb != want:
+        ck.violation("C02/matrix/mixed-moduli", "a generator of a definition with several moduli does not act as M*S reduced by its own modulus", {"case": case, "expected": want[:6], "observed": nb[:6]})
+
+
 def auto_width_expr():
     """The expression the constructor uses for bit_encoding_width='auto', read from the source."""
     tree = ast.parse(open(os.path.join(REPO, "cayleypy", "cayley_graph.py"), encoding="utf-8").read())
@@ -544,6 +575,28 @@ def main():
                     r[rng.randrange(n)] = v
                     rows.append(r)
         check_codec(ck, w, n, rows)
+    # routines of the same width and length whose permutations are easily confused (equal when the entries are written
+    # without separators, equal as sets of moved points, one the prefix-shift of the other): compiled one after the
+    # other in this process, each judged on its own
+    for _ in range(6 if not ck.thorough else 120):
+        if ck.enough():
+            break
+        n = rng.randint(11, 40)
+        w = rng.choice([max(1, (n - 1).bit_length()), 6, 7])
+        t = rng.choice([x for x in range(10, n) if x // 10 != x % 10])
+        d1, d2 = t // 10, t % 10
+        if 2**w < n:
+            w = (n - 1).bit_length()
+        rest = [x for x in range(n) if x not in (d1, d2, t)]
+        rng.shuffle(rest)
+        at = rng.randrange(len(rest) + 1)
+        pa = rest[:at] + [d1, d2, t] + rest[at:]
+        pb = rest[:at] + [t, d1, d2] + rest[at:]
+        for p in (pa, pb, pa):
+            check_routine(ck, w, n, p, one_d=False)
+            if n * w <= 64:
+                check_routine(ck, w, n, p, one_d=True)
+        ck.count("routine pairs with equal separator-free spelling")
     # end-to-end action on graphs (encoded with several widths, un-encoded, matrices)
     for _ in range(60 if not ck.thorough else 1500):
         if ck.enough():
@@ -592,6 +645,21 @@ def main():
             for m in (1, 2):
                 check_matrix_kernel(ck, n, m, modulo, [modulo - 1] * (n * n), [modulo - 1] * (n * m))
                 ck.count("matrix-overflow-boundary")
+    # float boundaries (2^24 single, 2^53 double): moduli around 2^k, k = 20..31, entries just below m of both parities
+    for k in range(20, 32):
+        if ck.enough():
+            break
+        for modulo in (2**k, 2**k - 1, 2**k - 3) if ck.thorough or 24 <= k <= 27 else (rng.choice([2**k, 2**k - 1, 2**k - 3]),):
+            for n in (2, 3, 5) if ck.thorough else (rng.choice([3, 3, 4, 5, 6]),):
+                M = [modulo - rng.choice([1, 1, 2, 3, 4, 5]) for _ in range(n * n)]
+                S = [modulo - rng.choice([1, 1, 2, 3, 4, 5]) for _ in range(n * 2)]
+                check_matrix_kernel(ck, n, 2, modulo, M, S)
+                ck.count("matrix-float-boundary")
+    # generators with different moduli in one definition: each acts with its own modulus
+    for _ in range(6 if not ck.thorough else 100):
+        if ck.enough():
+            break
+        ck.guard(check_mixed_moduli, ck)
     check_auto_width(ck)
     ck.assumptions = [
         "IEEE log2 in the 'auto' width is modelled, not verified: compared with the exact bit length for every max in [0, 2^12] (2^16 thorough) and 2^k-1, 2^k, 2^k+1, k<=62 (float inexactness for max >= 2^40 is counted, not judged: the central state's entries are below its length n, and n >= 2^40 is not reachable; first observed at max = 2^49)",
